@@ -97,6 +97,7 @@ func c19(c *Ctx) {
 	r.Rule("R-C19.3", "in-memory back end: every radix-tree call is classified read or write and runs with the embedded mutex held in a sufficient mode (forward lock-state dataflow, defer-aware); lock state is none at every return")
 	r.Rule("R-C19.4", "the absent arm of each back end's load returns the ErrNotFound sentinel itself")
 	r.Rule("R-C19.5", "store-once back end: for a node record, delegation to the inner Store is reachable only from the failure edge of a Load of the same ID")
+	r.Rule("R-C19.7", "the file back end writes an entry with a primitive that replaces the previous content (os.WriteFile, os.Create, or os.OpenFile with O_TRUNC), directly or in a package-local helper")
 	r.Rule("R-C19.6", "in each back end the entry key of the store, load and remove operations depends on exactly (sub-path, id) plus back-end constants (data-dependence origin set)")
 	r.NotDecided = append(r.NotDecided, "map equivalence over operation sequences", "file-system semantics", "concurrency of the file back end")
 
@@ -212,6 +213,16 @@ func c19(c *Ctx) {
 			c19Key(c, be, helper)
 		}
 	}
+	// R-C19.7 the file back end's store replaces the whole entry
+	if sv := c.need("R-C19.7", "storage/file", "(*Storage).storeValue"); sv != nil {
+		ok, why := truncatingWrite(p, sv, 0)
+		if why == "" {
+			r.Unk("R-C19.7", core.FuncName(sv)+" write primitive", p.Pos(sv.Pos()), "no recognised file write (os.WriteFile, os.Create, os.OpenFile) found")
+		} else {
+			r.Check(ok, "R-C19.7", core.FuncName(sv)+" write primitive", p.Pos(sv.Pos()), why, why+": a shorter value stored over a longer one keeps the old tail, so Load does not return the most recently stored message")
+		}
+	}
+
 	// R-C19.4
 	for _, be := range []string{"storage/inmem", "storage/file"} {
 		lv := c.need("R-C19.4", be, "(*Storage).loadValue")
@@ -356,8 +367,13 @@ func c19Key(c *Ctx, be string, helper *ssa.Function) {
 		switch {
 		case strings.HasPrefix(cn, "(*github.com/armon/go-radix.Tree).") && (strings.HasSuffix(cn, ".Insert") || strings.HasSuffix(cn, ".Get") || strings.HasSuffix(cn, ".Delete")):
 			keys = append(keys, ci.Common().Args[1])
-		case cn == "os.WriteFile" || cn == "os.ReadFile" || cn == "os.Remove":
+		case cn == "os.WriteFile" || cn == "os.ReadFile" || cn == "os.Remove" || cn == "os.OpenFile" || cn == "os.Create" || cn == "os.Open":
 			keys = append(keys, ci.Common().Args[0])
+		default:
+			// a package-local helper that receives the entry path and performs the file operation
+			if cal := ci.Common().StaticCallee(); cal != nil && cal.Pkg == helper.Pkg && cal.Signature.Recv() == nil && fileOpOnParam(cal) >= 0 {
+				keys = append(keys, ci.Common().Args[fileOpOnParam(cal)])
+			}
 		}
 	}
 	if len(keys) == 0 {
@@ -428,4 +444,58 @@ func c19Key(c *Ctx, be string, helper *ssa.Function) {
 		}
 		r.Check(ok, "R-C19.6", fmt.Sprintf("%s entry key#%d", name, i), p.Pos(helper.Pos()), "depends on "+strings.Join(os, ","), "the entry key depends on "+strings.Join(os, ",")+"; it must depend on exactly (subPath, id) and back-end constants, or store/load/remove address different entries")
 	}
+}
+
+// fileOpOnParam returns the index of the parameter of fn that is used as the
+// path of an os file operation, or -1.
+func fileOpOnParam(fn *ssa.Function) int {
+	for _, ci := range core.AllCalls(fn) {
+		switch core.CalleeName(ci.Common()) {
+		case "os.WriteFile", "os.OpenFile", "os.Create", "os.ReadFile", "os.Remove", "os.Open":
+			for i, pr := range fn.Params {
+				if core.Strip(ci.Common().Args[0]) == ssa.Value(pr) {
+					return i
+				}
+			}
+		}
+	}
+	return -1
+}
+
+// truncatingWrite reports whether fn (or a package-local helper it hands the
+// path to) writes with a primitive that replaces the file's content.
+func truncatingWrite(p *core.Prog, fn *ssa.Function, depth int) (bool, string) {
+	oTrunc := int64(-1)
+	if osp := p.SSAPkg["os"]; osp != nil {
+		if cst, ok := osp.Members["O_TRUNC"].(*ssa.NamedConst); ok {
+			oTrunc = cst.Value.Int64()
+		}
+	}
+	for _, ci := range core.AllCalls(fn) {
+		switch core.CalleeName(ci.Common()) {
+		case "os.WriteFile":
+			return true, "os.WriteFile (truncates)"
+		case "os.Create":
+			return true, "os.Create (truncates)"
+		case "os.OpenFile":
+			flags, ok := core.ConstInt(ci.Common().Args[1])
+			if !ok || oTrunc < 0 {
+				return false, "os.OpenFile with non-constant flags"
+			}
+			if flags&oTrunc != 0 {
+				return true, "os.OpenFile with O_TRUNC"
+			}
+			return false, fmt.Sprintf("os.OpenFile(flags=%#x) without O_TRUNC", flags)
+		}
+	}
+	if depth < 1 {
+		for _, ci := range core.AllCalls(fn) {
+			if cal := ci.Common().StaticCallee(); cal != nil && cal.Pkg == fn.Pkg && cal.Signature.Recv() == nil && cal.Blocks != nil {
+				if ok, why := truncatingWrite(p, cal, depth+1); why != "" {
+					return ok, why + " in " + cal.Name()
+				}
+			}
+		}
+	}
+	return false, ""
 }
